@@ -270,6 +270,7 @@ func enumPathsMode(fn *ssa.Function, mode Mode, limit int, visit func([]*ssa.Bas
 
 func checkC04(c *Ctx) {
 	r := c.R
+	r.Rule("R07.1", "(shared with C07) one member per attribute with its own value: in argsToAttrs the pending-key test is the first decision of a round and a pending key takes the next element as its value whatever it is")
 	r.Rule("R04.12", "all attributes are members of the object: the loop of serializeAttrs over the (sorted) member list has its natural exit only; a break or return from the body drops every member after that point")
 	r.Rule("R04.1", "escape alphabet: in JSON mode string values and keys go through the JSON escaper only (the Go-syntax quoting routines are unreachable in JSON mode); every backslash-led constant that escaper can emit is a JSON escape; its safe-character table marks exactly the control characters, the quote and the backslash as unsafe; the hex digit table is the constant \"0123456789abcdef\" and is never stored to")
 	r.Rule("R04.2", "no raw user bytes: in JSON mode (mode bits pruned, testing/debug dump excluded) every site that copies a non-constant string into the record verbatim carries only strconv/time output or a user marshaller's output; message, keys, values, error text, fallback formatting, logger name and frame strings reach the record only through the escaper")
@@ -312,10 +313,14 @@ func checkC04(c *Ctx) {
 		}
 		mr := emissionCommon(c, p, m, jsonMode, "R04.2")
 		c04Escaper(c, p, m, mr)
+		c04ShortEscapes(c, p)
 		c04Tokens(c, p, m, mr)
 		valueFidelity(c, p, m, mr, "R04.8")
 		elementsSamePrinter(c, p, m, "R04.8")
+		loopIndexVaries(c, p, m, "R04.8")
 		attrsTraversal(c, p, "R04.12")
+		argsPairing(c, p, "R07.1")
+		separatorIndependentOfMember(c, p, "R04.9")
 		escaperNoLoss(c, p, "R04.8")
 		messageIdentity(c, p, "R05.10")
 		messageEmittedAsIs(c, p, m, mr, "R05.10")
@@ -1451,4 +1456,63 @@ func isFinitenessHelper(fn *ssa.Function) bool {
 		}
 	}
 	return nan && inf
+}
+
+// c04ShortEscapes (R04.1): the byte written after the backslash for a byte K is JSON's own escape letter for K
+// (\b \f \n \r \t; the quote and the backslash stand for themselves): in the JSON escaper every arm entered by a
+// comparison of the byte with a constant writes, where it writes a constant letter at all, the letter of that constant.
+func c04ShortEscapes(c *Ctx, p *Prog) {
+	r := c.R
+	esc := p.Method(p.Slog, "PrintCtx", "appendEscapedJSONString")
+	if esc == nil {
+		return // reported by c04Escaper
+	}
+	table := map[int64]int64{8: 'b', 12: 'f', 10: 'n', 13: 'r', 9: 't', '"': '"', '\\': '\\', '/': '/'}
+	n := 0
+	var bad []string
+	for _, b := range esc.Blocks {
+		iff := ifOf(b)
+		if iff == nil {
+			continue
+		}
+		cond, neg := normCond(iff.Cond)
+		bo, ok := cond.(*ssa.BinOp)
+		if !ok || (bo.Op != token.EQL && bo.Op != token.NEQ) {
+			continue
+		}
+		k, isK := constInt(bo.Y)
+		if !isK {
+			continue
+		}
+		if bt, isB := bo.X.Type().Underlying().(*types.Basic); !isB || bt.Kind() != types.Uint8 {
+			continue
+		}
+		succ := 0
+		if (bo.Op == token.NEQ) != neg {
+			succ = 1
+		}
+		arm := b.Succs[succ]
+		for _, in := range arm.Instrs {
+			cs, isC := in.(*ssa.Call)
+			if !isC || len(cs.Common().Args) == 0 {
+				continue
+			}
+			args := cs.Common().Args
+			l, isL := constInt(args[len(args)-1])
+			if !isL || !((l >= 'a' && l <= 'z') || l == '"' || l == '\\' || l == '/') {
+				continue
+			}
+			n++
+			if want, in := table[k]; !in || want != l {
+				bad = append(bad, fmt.Sprintf("byte 0x%02x is written as \\%c at %s", k, rune(l), p.Pos(instrPos(cs))))
+			}
+		}
+	}
+	sort.Strings(bad)
+	if n == 0 {
+		r.OkTrivial("R04.1", "json-escaper:short-escapes", p.FuncPos(esc), "the escaper writes no constant short-escape letter on a comparison arm (table or computed form: the letters are judged by the alphabet rule)")
+		return
+	}
+	r.Check(len(bad) == 0, "R04.1", "json-escaper:short-escapes", p.FuncPos(esc), fmt.Sprintf("the %d short escapes are JSON's own letters for their bytes", n),
+		"a short escape does not stand for the byte it replaces ("+strings.Join(bad, "; ")+"): the record stays valid JSON but the string decodes to other bytes")
 }
